@@ -158,7 +158,7 @@ PROPERTIES = {
     },
     "C13": {
         "runs": {
-            "quick": [H("HarnessC13a", b(N=3, B=1, RELOAD=1))] + [H("HarnessC13a", b(N=17, B=1, RELOAD=1, ASC=1, Lmax=4, LRULER=1, CONCRETEKEYS=1), sample_every=10, max_steps=30000000)],
+            "quick": [H("HarnessC13a", b(N=3, B=1, RELOAD=1))] + [H("HarnessC13a", b(N=20, B=1, RELOAD=1, ASC=1, Lmax=4, LRULER=1, CONCRETEKEYS=1), sample_every=10, max_steps=30000000)],
             "thorough": [H("HarnessC13a", b(N=3, B=2, RELOAD=1), sample_every=200), H("HarnessC13a", b(N=3, B=1, RELOAD=0)), H("HarnessC13a", b(N=4, B=1, RELOAD=1), sample_every=200)],
         },
         "must_reach": ["C13.written-is-reachable", "C13.rewrite-only-in-range", "C13.write-count", "C13.clean-implies-unchanged"],
@@ -167,7 +167,7 @@ PROPERTIES = {
     },
     "C16": {
         "runs": {
-            "quick": [H("HarnessC16a", b(N=5), sample_every=200), H("HarnessC16a", b(N=4, BF=3))] + [H("HarnessC16a", b(N=33, Lmax=5, LRULER=1, CONCRETEKEYS=1), sample_every=20, max_steps=30000000)],
+            "quick": [H("HarnessC16a", b(N=5), sample_every=200), H("HarnessC16a", b(N=4, BF=3))] + [H("HarnessC16a", b(N=40, Lmax=5, LRULER=1, CONCRETEKEYS=1), sample_every=20, max_steps=30000000)],
             "thorough": [H("HarnessC16a", b(N=5), sample_every=200), H("HarnessC16a", b(N=4, BF=3))],
         },
         "must_reach": ["C16.get-reads-path", "C16.insert-reads-two-paths", "C16.delete-reads-two-paths", "C16.loadmast-reads-top-only"],
